@@ -436,29 +436,65 @@ def frame_check_sweep(rep, rng, n):
 
 
 def unique_groups_sweep(rep, rng, n):
-    """several joint-uniqueness groups under drop_invalid_rows: the survivors are the rows outside every violated group
-    (Lean `dupGroups`, driver C01), in their original order, and satisfy the schema"""
+    """several joint-uniqueness groups under drop_invalid_rows, together with columns that are unique themselves (their
+    own `report_duplicates`, nulls): the survivors are the rows outside every violated group (Lean `dupGroups`, driver
+    C01) and outside the duplicates of every unique column, in their original order, and satisfy the schema"""
     import warnings
     import pandera as pa
     names = ["a", "b", "c", "d"]
     cases = []
     for _ in range(n):
         nrows = rng.randint(1, 6)
-        cols = [{"name": x, "dtype": "int64", "vals": [rng.choice(A.POOL["int64"][:3]) for _ in range(nrows)]}
-                for x in names if rng.random() < 0.8]
-        groups = [rng.sample(names, rng.randint(1, 2)) for _ in range(rng.randint(2, 3))]
+        cols, colopts = [], {}
+        for x in names:
+            if rng.random() >= 0.8:
+                continue
+            dtype = rng.choice(["int64", "int64", "float64"])
+            pool = A.POOL[dtype][:3] + ([A.NULL, A.NULL] if dtype == "float64" else [])
+            cols.append({"name": x, "dtype": dtype, "vals": [rng.choice(pool) for _ in range(nrows)]})
+            colopts[x] = {"unique": rng.random() < 0.3, "keep": rng.choice(["first", "last", "none"])}
+        groups = [rng.sample(names, rng.randint(1, 2)) for _ in range(rng.randint(1, 3))]
         fr = {"cols": cols, "index": A.default_index(nrows), "nrows": nrows}
-        cases.append({"entries": "unique-groups", "groups": groups, "keep": rng.choice(["first", "last", "none"]), "frame": fr})
-    ans = run_driver("C01", [{"mode": "uniqueGroups", "groups": c["groups"], "keep": c["keep"], "frame": c["frame"]} for c in cases])
-    for c, a in zip(cases, ans):
+        cases.append({"entries": "unique-groups", "groups": groups, "keep": rng.choice(["first", "last", "none"]), "frame": fr,
+                      "colopts": colopts})
+    dcases, owner = [], []
+    for i, c in enumerate(cases):
+        dcases.append({"mode": "uniqueGroups", "groups": c["groups"], "keep": c["keep"], "frame": c["frame"]})
+        owner.append((i, None))
+        for col in c["frame"]["cols"]:
+            if c["colopts"][col["name"]]["unique"]:
+                dcases.append({"mode": "uniqueGroups", "groups": [[col["name"]]], "keep": c["colopts"][col["name"]]["keep"],
+                               "frame": c["frame"]})
+                owner.append((i, col["name"]))
+    ans = run_driver("C01", dcases)
+    bad_of = {i: set() for i in range(len(cases))}
+    nulldup = {i: set() for i in range(len(cases))}
+    broken = set()
+    for (i, colname), a in zip(owner, ans):
         if "error" in a:
-            rep.correspondence_break(c, "driver: " + a["error"])
+            broken.add(i)
+            rep.correspondence_break(cases[i], "driver: " + a["error"])
             continue
-        bad = sorted({i for _, rows in a["dups"] for i in rows})
-        want = [i for i in range(c["frame"]["nrows"]) if i not in bad]
+        colvals = {col["name"]: col["vals"] for col in cases[i]["frame"]["cols"]}
+        for subset, rs in a["dups"]:
+            for r in rs:
+                # a duplicated row all of whose cells (over the group) are null has no failure case left in the report
+                # (listed region K_C11_nullDuplicates): it survives
+                if all(colvals[x][r] == A.NULL for x in subset):
+                    nulldup[i].add(r)
+                else:
+                    bad_of[i].add(r)
+    for i, c in enumerate(cases):
+        if i in broken:
+            continue
+        bad = sorted(bad_of[i] | nulldup[i])
+        want = [r for r in range(c["frame"]["nrows"]) if r not in bad]
         df = A.frame_of(c["frame"])
-        mk = lambda **kw: pa.DataFrameSchema({x: pa.Column(None, required=False) for x in names}, unique=c["groups"],  # noqa: E731
-                                             report_duplicates=A.KEEP[c["keep"]], **kw)
+        present = [col["name"] for col in c["frame"]["cols"]]
+        mk = lambda **kw: pa.DataFrameSchema(  # noqa: E731
+            {x: pa.Column(None, required=False, nullable=True, unique=c["colopts"].get(x, {}).get("unique", False),
+                          report_duplicates=A.KEEP[c["colopts"].get(x, {}).get("keep", "none")]) for x in names},
+            unique=c["groups"], report_duplicates=A.KEEP[c["keep"]], **kw)
         with warnings.catch_warnings():
             warnings.simplefilter("ignore")
             try:
@@ -468,17 +504,55 @@ def unique_groups_sweep(rep, rng, n):
                                         f"(every violation is attributable to rows)")
                 continue
         rep.evaluations += 1
-        rep.count(f"unique-groups:{len(a['dups'])}-violated:{'dropped' if bad else 'nothing-to-drop'}")
-        got = [int(i) for i in out.index]
+        rep.count(f"unique-groups:{'dropped' if bad else 'nothing-to-drop'}:{sum(1 for x in present if c['colopts'][x]['unique'])}-unique-columns")
+        got = [int(r) for r in out.index]
         if got != want:
-            rep.property_failure(c, f"unique={c['groups']}: surviving rows {got}, the rows outside every violated group are {want}")
-            continue
-        if c["keep"] == "none":
-            # all members of a duplicated set are removed: what is left must satisfy the schema
-            try:
-                mk().validate(out, lazy=True)
-            except Exception as e:  # noqa: BLE001
-                rep.property_failure(c, f"unique={c['groups']}: the returned frame is rejected by the same schema: {str(e)[:80]}")
+            extra = [r for r in got if r not in want]
+            missing = [r for r in want if r not in got]
+            # duplicated nulls of a unique column are not reported (listed region): those rows survive
+            region = "K_C11_nullDuplicates" if (not missing and extra and all(r in nulldup[i] and r not in bad_of[i] for r in extra)) else None
+            rep.property_failure(c, f"unique={c['groups']} with unique columns "
+                                    f"{[x for x in present if c['colopts'][x]['unique']]}: surviving rows {got}, the rows outside "
+                                    f"every violated constraint are {want}", region=region)
+
+
+def model_history_sweep(rep):
+    """a model whose Config sets drop_invalid_rows, used after other operations on the same class (`empty()`, `to_schema()`,
+    an earlier validation): the survivors and their values are the same at every point of the history — in particular no
+    coercion that nobody requested"""
+    import pandera as pa
+    frames = {"mixed-str": pd.DataFrame({"label": ["x", 3, "y", 4.5], "n": [1, 2, 3, 4]}, index=[10, 11, 12, 13]),
+              "all-str": pd.DataFrame({"label": ["x", "y"], "n": [1, -2]}, index=[5, 6])}
+    for hist in ((), ("empty",), ("to_schema",), ("validate-ok",), ("empty", "validate-ok", "empty")):
+        for fname, df in frames.items():
+            M = type("M", (pa.DataFrameModel,), {
+                "__annotations__": {"label": str, "n": int}, "n": pa.Field(ge=0),
+                "Config": type("Config", (), {"drop_invalid_rows": True})})
+            case = {"entries": "model-history", "history": list(hist), "frame": fname}
+            with warnings.catch_warnings():
+                warnings.simplefilter("ignore")
+                try:
+                    for h in hist:
+                        if h == "empty":
+                            M.empty()
+                        elif h == "to_schema":
+                            M.to_schema()
+                        else:
+                            M.validate(pd.DataFrame({"label": ["q"], "n": [1]}), lazy=True)
+                    out = M.validate(df.copy(), lazy=True)
+                except Exception as e:  # noqa: BLE001
+                    rep.property_failure(case, f"model with drop_invalid_rows after {list(hist)}: {type(e).__name__}: {str(e)[:100]}")
+                    continue
+            want = [i for i, (lab, n) in zip(df.index, zip(df["label"], df["n"])) if isinstance(lab, str) and n >= 0]
+            rep.case(case, nontrivial=len(want) < len(df))
+            rep.evaluations += 1
+            rep.count("model-history:" + ("+".join(hist) or "fresh"))
+            if out.index.tolist() != want:
+                rep.property_failure(case, f"model after {list(hist)}: surviving rows {out.index.tolist()}, the rows satisfying "
+                                           f"every row-level constraint are {want}")
+            elif out["label"].tolist() != df.loc[want, "label"].tolist() or out["n"].tolist() != df.loc[want, "n"].tolist():
+                rep.property_failure(case, f"model after {list(hist)}: the surviving rows were changed "
+                                           f"({out['label'].tolist()} vs {df.loc[want, 'label'].tolist()})")
 
 
 def entry_region(c, a, missing, extra):
@@ -510,6 +584,7 @@ def run(tier, replay=None):
             extension_sweep(rep)
             frame_check_sweep(rep, rng_for(PROP, "frame-checks"), 200)
             unique_groups_sweep(rep, rng_for(PROP, "unique-groups"), 200)
+            model_history_sweep(rep)
         else:
             run_cases(rep, [case])
         return rep.finish(rule="replay")
@@ -520,6 +595,7 @@ def run(tier, replay=None):
     extension_sweep(rep)
     frame_check_sweep(rep, rng_for(PROP, "frame-checks"), 200 if tier == "quick" else 4000)
     unique_groups_sweep(rep, rng_for(PROP, "unique-groups"), 200 if tier == "quick" else 4000)
+    model_history_sweep(rep)
     return rep.finish(
         rule="C03's generator with drop_invalid_rows=True, lazy validation and a unique index (int and str labels, "
              "labels with quotes): surviving positions (recovered through the labels) vs the positions on which every "
